@@ -204,6 +204,7 @@ struct Sums {
     stray_cases_clean: u64,
     unsendable_cases_clean: u64,
     overlong_cases_clean: u64,
+    newcomer_cases_clean: u64,
     families_cases_clean: u64,
     dual_listener_cases_clean: u64,
     dual_cases_clean: u64,
@@ -250,6 +251,8 @@ fn add_udp(a: &mut UdpStats, b: &UdpStats) {
     a.target_sources += b.target_sources;
     a.unsendable_judged += b.unsendable_judged;
     a.unsendable_answer_late += b.unsendable_answer_late;
+    a.newcomer_judged += b.newcomer_judged;
+    a.newcomer_keepalives_unanswered += b.newcomer_keepalives_unanswered;
     a.overlong_completed += b.overlong_completed;
     a.overlong_tcp_bytes_echoed += b.overlong_tcp_bytes_echoed;
 }
@@ -553,8 +556,12 @@ fn matrix(b: &Bounds) -> Vec<Case> {
             }
         }
     } else {
-        // quick tier: the two idle scenarios (one prune timeout + a little: the server's forwarder is gone; two prune
-        // timeouts + a little: the client's map entry is gone as well); they start first and run beside everything else
+        // quick tier: the one-pruned-then-newcomer scenario (the longest: first) and the two idle scenarios (one prune
+        // timeout + a little: the server's forwarder is gone; two prune timeouts + a little: the client's map entry is
+        // gone as well); they start first, on threads of their own, and run beside everything else
+        for kind in UKind::ALL {
+            v.push(Case::Udp(UdpCase { kind, size: udp::SLOW_LEN, topo: Topo::PruneThenNewcomer }));
+        }
         for kind in UKind::ALL {
             v.push(Case::Udp(UdpCase { kind, size: udp::SLOW_LEN, topo: Topo::Idle }));
             v.push(Case::Udp(UdpCase { kind, size: udp::SLOW_LEN, topo: Topo::IdleGap }));
@@ -1220,6 +1227,7 @@ pub fn run(args: &Args) -> Report {
                                         Case::Udp(u) if u.topo.stray().is_some() => g.stray_cases_clean += 1,
                                         Case::Udp(u) if u.topo.unsendable().is_some() => g.unsendable_cases_clean += 1,
                                         Case::Udp(u) if u.topo.overlong().is_some() => g.overlong_cases_clean += 1,
+                                        Case::Udp(u) if u.topo == Topo::PruneThenNewcomer => g.newcomer_cases_clean += 1,
                                         Case::Udp(u) if u.topo.two_families() => g.families_cases_clean += 1,
                                         Case::Udp(u) if u.topo.dual_listener().is_some() => g.dual_listener_cases_clean += 1,
                                         _ => {}
@@ -1463,7 +1471,15 @@ pub fn run(args: &Args) -> Report {
         udp::OVERLONG_TCP_LEN,
         udp::OVERLONG_KEY
     );
-    rep.rule = format!("complete product, every point enumerated (no sampling): TCP = entry point (7) x connections {:?} x chunking (3) x [close order (4) x client->target length in L x target->client length in L + target-refuses x client->target length in L], where {len_rule}{after_half_rule}{slow_rule}{with_request_rule}{v6_rule}{dual_rule}; UDP = entry (UDP remote, SOCKS5 UDP with IPv4 header, with domain header) x topology (1 client, 3 clients, 1 socket to 2 entry points, 1 client whose payload lengths change from datagram to datagram (len, 3, len+500, 0, len+1); SOCKS5 only: 1 association alternating between 2 targets with the same host string and different ports, and between 2 targets with different host strings 127.0.0.1/127.0.0.2 and the same port) x payload length, 3 request/reply exchanges per leg{stray_rule}{unsendable_rule}{overlong_rule}{families_rule}{dual_listener_rule}{}; one execution per point (more only after a lost port race or a deadline hit); a case is distinct when its parameter tuple is distinct", b.concs, if b.slow_udp { format!("; plus the real-time scenarios: UDP entry (3) x [steady sender: 1 datagram of {} bytes per second for 2*UDP_PRUNE_TIMEOUT+3 = {} s to a silent target, which then answers the last one | idle: one exchange, {} s of silence, one more exchange | idle gap between one and two prune timeouts: one exchange, {} s of silence, one more exchange from the same socket whose FIRST transmission must be at the target within {} ms]", udp::SLOW_LEN, 2 * udp::prune_timeout().as_secs() + 3, 2 * udp::prune_timeout().as_secs() + 1, udp::prune_timeout().as_secs() + udp::GAP_EXTRA_S, udp::GAP_FIRST_TX_MS) } else { format!("; plus one real-time scenario per UDP entry (3): idle gap between one and two prune timeouts (one exchange, {} s of silence, one more exchange from the same socket whose FIRST transmission must be at the target within {} ms)", udp::prune_timeout().as_secs() + udp::GAP_EXTRA_S, udp::GAP_FIRST_TX_MS) });
+    rep.rule = format!("complete product, every point enumerated (no sampling): TCP = entry point (7) x connections {:?} x chunking (3) x [close order (4) x client->target length in L x target->client length in L + target-refuses x client->target length in L], where {len_rule}{after_half_rule}{slow_rule}{with_request_rule}{v6_rule}{dual_rule}; UDP = entry (UDP remote, SOCKS5 UDP with IPv4 header, with domain header) x topology (1 client, 3 clients, 1 socket to 2 entry points, 1 client whose payload lengths change from datagram to datagram (len, 3, len+500, 0, len+1); SOCKS5 only: 1 association alternating between 2 targets with the same host string and different ports, and between 2 targets with different host strings 127.0.0.1/127.0.0.2 and the same port) x payload length, 3 request/reply exchanges per leg{stray_rule}{unsendable_rule}{overlong_rule}{families_rule}{dual_listener_rule}{}; one execution per point (more only after a lost port race or a deadline hit); a case is distinct when its parameter tuple is distinct", b.concs, {
+        let newcomer = format!("3 local clients with one pruned before a newcomer: A and B make one exchange each ({}-byte payloads), A goes silent, B makes one exchange per second for 2*UDP_PRUNE_TIMEOUT+{} = {} s (A is pruned on the client side, B never is), then a NEW client C makes one exchange, B one more, C one more: every reply at exactly the socket that sent the request (keys end in {}; see assumptions)", udp::SLOW_LEN, udp::NEWCOMER_EXTRA_S, 2 * udp::prune_timeout().as_secs() + udp::NEWCOMER_EXTRA_S, udp::NEWCOMER_KEY_SUFFIX);
+        let idle = format!("idle: one exchange, {} s of silence, one more exchange | idle gap between one and two prune timeouts: one exchange, {} s of silence, one more exchange from the same socket whose FIRST transmission must be at the target within {} ms", 2 * udp::prune_timeout().as_secs() + 1, udp::prune_timeout().as_secs() + udp::GAP_EXTRA_S, udp::GAP_FIRST_TX_MS);
+        if b.slow_udp {
+            format!("; plus the real-time scenarios: UDP entry (3) x [{newcomer} | steady sender: 1 datagram of {} bytes per second for 2*UDP_PRUNE_TIMEOUT+3 = {} s to a silent target, which then answers the last one | {idle}]", udp::SLOW_LEN, 2 * udp::prune_timeout().as_secs() + 3)
+        } else {
+            format!("; plus three real-time scenarios per UDP entry (3), started first and run beside everything else: [{newcomer} | {idle}]")
+        }
+    });
     rep.bounds.insert("tcp_entry_points".into(), json!(Entry::ALL.iter().map(|e| e.name()).collect::<Vec<_>>()));
     rep.bounds.insert("ipv6_loopback".into(), json!(b.ipv6_loopback));
     rep.bounds.insert("tcp_ipv6_literal_entry_points".into(), json!(if b.ipv6_loopback { Entry::V6.iter().map(|e| e.name()).collect::<Vec<_>>() } else { Vec::new() }));
@@ -1534,7 +1550,12 @@ pub fn run(args: &Args) -> Report {
     rep.bounds.insert("udp_topologies".into(), json!(Topo::ALL.iter().map(|e| e.name()).collect::<Vec<_>>()));
     rep.bounds.insert("udp_payload_lengths".into(), json!(b.udp_lens));
     rep.bounds.insert("udp_exchanges_per_leg".into(), json!(udp::EXCHANGES));
-    rep.bounds.insert("udp_real_time_scenarios".into(), json!(if b.slow_udp { Topo::SLOW.iter().map(|t| t.name()).collect::<Vec<_>>() } else { vec![Topo::Idle.name(), Topo::IdleGap.name()] }));
+    rep.bounds.insert("udp_real_time_scenarios".into(), json!(cases.iter().filter_map(|c| match c { Case::Udp(u) if u.topo.slow() => Some(u.topo.name()), _ => None }).collect::<std::collections::BTreeSet<_>>()));
+    rep.bounds.insert("udp_real_time_cases".into(), json!(cases.iter().filter(|c| matches!(c, Case::Udp(u) if u.topo.slow())).map(Case::label).collect::<Vec<_>>()));
+    rep.bounds.insert("udp_one_pruned_then_newcomer_entries".into(), json!(UKind::ALL.iter().filter(|k| UdpCase { kind: **k, size: udp::SLOW_LEN, topo: Topo::PruneThenNewcomer }.valid()).map(|e| e.name()).collect::<Vec<_>>()));
+    rep.bounds.insert("udp_one_pruned_then_newcomer_keepalive_exchanges_of_client_b_one_per_second".into(), json!(2 * udp::prune_timeout().as_secs() + udp::NEWCOMER_EXTRA_S));
+    rep.bounds.insert("udp_one_pruned_then_newcomer_payload_length".into(), json!(udp::SLOW_LEN));
+    rep.bounds.insert("udp_one_pruned_then_newcomer_cases".into(), json!(cases.iter().filter(|c| matches!(c, Case::Udp(u) if u.topo == Topo::PruneThenNewcomer)).count()));
     rep.bounds.insert("udp_prune_timeout_s".into(), json!(udp::prune_timeout().as_secs()));
     rep.bounds.insert("tcp_cases".into(), json!(n_tcp));
     rep.bounds.insert("udp_cases".into(), json!(n_udp));
@@ -1546,6 +1567,9 @@ pub fn run(args: &Args) -> Report {
     rep.extra.insert("udp_unsendable_destination_cases_clean".into(), json!(sums.unsendable_cases_clean));
     rep.extra.insert("udp_unsendable_destination_cases_judged_definitively".into(), json!(sums.udp.unsendable_judged));
     rep.extra.insert("udp_unsendable_destination_answer_late_not_lost".into(), json!(sums.udp.unsendable_answer_late));
+    rep.extra.insert("udp_one_pruned_then_newcomer_cases_clean".into(), json!(sums.newcomer_cases_clean));
+    rep.extra.insert("udp_one_pruned_then_newcomer_cases_with_the_intended_history".into(), json!(sums.udp.newcomer_judged));
+    rep.extra.insert("udp_one_pruned_then_newcomer_keepalive_exchanges_unanswered_within_their_second".into(), json!(sums.udp.newcomer_keepalives_unanswered));
     rep.extra.insert("udp_overlong_target_host_cases_clean".into(), json!(sums.overlong_cases_clean));
     rep.extra.insert("udp_overlong_target_host_sequences_completed".into(), json!(sums.udp.overlong_completed));
     rep.extra.insert("udp_overlong_target_host_tcp_bytes_echoed".into(), json!(sums.udp.overlong_tcp_bytes_echoed));
@@ -1614,7 +1638,8 @@ pub fn run(args: &Args) -> Report {
             rep.sample(c.to_json());
         }
     }
-    let picks: [&dyn Fn(&Case) -> bool; 15] = [
+    let picks: [&dyn Fn(&Case) -> bool; 16] = [
+        &|c| matches!(c, Case::Udp(u) if u.kind == UKind::Remote && u.topo == Topo::PruneThenNewcomer),
         &|c| matches!(c, Case::Udp(u) if u.topo == Topo::OverlongHost256),
         &|c| matches!(c, Case::Tcp(t) if t.chunk == Chunk::WithRequest && t.entry == Entry::Socks5Domain && t.order == Order::ClientHalf && t.conc == 1 && t.c2t > tcp::WITH_REQUEST_HEAD && t.t2c > 1),
         &|c| matches!(c, Case::Tcp(t) if t.slow.is_some_and(|s| s.dir == SlowDir::Download) && t.entry == Entry::TcpRemote && t.conc == 1),
@@ -1666,6 +1691,14 @@ pub fn run(args: &Args) -> Report {
         udp::OVERLONG_PAUSE_MS,
         k = udp::OVERLONG_KEY
     ));
+    rep.assumptions.push(format!(
+        "one-pruned-then-newcomer scenarios (UDP remote: three local sockets and one listening port; SOCKS5 UDP: three associations, all made at the start): client A is silent for at least 2 * UDP_PRUNE_TIMEOUT = {} s before the newcomer C sends its first datagram (the client prunes a flow between one and two prune timeouts after its last use, on a timer), while client B exchanges a datagram every second (its flow never goes idle; on the server side B's forwarder stays, A's is given up). B's {} keep-alive exchanges wait {} ms each for their reply and are not retransmitted (the next one follows; how many went unanswered is recorded in extra.udp_one_pruned_then_newcomer_keepalive_exchanges_unanswered_within_their_second, and a reply that comes late is still judged); every other exchange has the usual loss tolerance. A reply received by another local socket than the one that sent the request is key udp.reply.misdelivered.<remote|socks5>{sfx} (definitive; while an exchange after the keep-alive phase waits for its reply the other clients' logs are watched, so a reply that went to the wrong client ends the waiting); an exchange whose reply arrives nowhere is key udp.reply.missing.<remote|socks5>{sfx} (deadline-type: it counts only when it shows again with the scenario run alone). The timing is the harness's: extra.udp_one_pruned_then_newcomer_cases_with_the_intended_history counts the scenarios in which B's datagrams were never more than UDP_PRUNE_TIMEOUT - {} s apart and A had been silent for two prune timeouts when C first sent; a run in which no clean scenario was like that is vacuous (a machinery error)",
+        2 * udp::prune_timeout().as_secs(),
+        2 * udp::prune_timeout().as_secs() + udp::NEWCOMER_EXTRA_S,
+        udp::NEWCOMER_KEEPALIVE_WAIT_MS,
+        udp::NEWCOMER_PRUNE_MARGIN_S,
+        sfx = udp::NEWCOMER_KEY_SUFFIX
+    ));
     rep.assumptions.push("dual-stack-name sub-matrix: what the resolver answers is controlled by a hosts file bind-mounted over /etc/hosts inside a private mount namespace of a child process (needs CAP_SYS_ADMIN; glibc's `files` NSS module); where that cannot be had the sub-matrix is skipped (bounds.dual_stack_names says why). The expectation is observed, not written down: a direct connection to (name, port) from the same process. The order of the addresses is whatever getaddrinfo returns (RFC 6724 sorting: recorded in bounds.dual_stack_name_resolver_order), so which listening set exposes a server that tries only the first address depends on the machine".into());
     rep.assumptions.push("IPv6-literal and dual-stack-name sub-matrices: a scenario in which every local connection has ended short of the target's payload (dual-stack names: or got a refusal / a close instead of the grant) while the target was never connected to is closed at once (key tcp.closed.target-not-reached.*) instead of waiting for the deadline".into());
 
@@ -1701,6 +1734,9 @@ pub fn run(args: &Args) -> Report {
         // (one such scenario may be the load of the machine; none at all is a topology that does not do its job here)
         if sums.unsendable_cases_clean > 0 && sums.udp.unsendable_judged == 0 {
             why.push("every unsendable-destination scenario passed without meeting the preconditions of its judgement (question-1 at the slow target after one transmission, the datagram for the second destination sent while the answer was outstanding)");
+        }
+        if sums.newcomer_cases_clean > 0 && sums.udp.newcomer_judged == 0 {
+            why.push("every one-pruned-then-newcomer scenario passed without the history it is meant to have (client B never idle for UDP_PRUNE_TIMEOUT minus the margin, client A silent for two prune timeouts when the newcomer first sent)");
         }
         if sums.udp.overlong_completed != cases.iter().filter(|c| matches!(c, Case::Udp(u) if u.topo.overlong().is_some())).count() as u64 {
             why.push("not every overlong-target-host scenario went through its whole sequence (TCP echo, one datagram, TCP echo on the same and on a new connection)");
